@@ -24,6 +24,7 @@ def _init(name):
 def _one(args):
     seed, idx, tier, avoid = args
     rng = rng_for(seed, _ENGINE.name, idx)
+    rng._dst_index = idx
     case = _ENGINE.generate(rng, tier, avoid)
     out = _ENGINE.execute(case)
     payload = out.to_json()
